@@ -428,9 +428,11 @@ func ccittBound(cols int64) int64 {
 // StreamBudget(rawLen).  TotalAlloc is cumulative (it also counts garbage that
 // was freed long before the peak), so it over-approximates the peak; we allow
 // the budget plus a per-output-byte share for transient buffers plus a fixed
-// amount for the readers' own small buffers (bufio, zlib window, pipes).
+// amount for the readers' own small buffers (bufio, zlib window, pipes): 512 KiB
+// and 128 KiB per stage (the unchanged tree needs less than 64 KiB per stage).
+// A decoder that fails before it produces output gets no output share at all.
 func allocAllowance(rawLen, out int64, stages int) uint64 {
-	return uint64(limits.StreamBudget(rawLen)) + uint64(4*out) + uint64(1<<20)*uint64(1+stages)
+	return uint64(limits.StreamBudget(rawLen)) + uint64(4*out) + uint64(512<<10) + uint64(128<<10)*uint64(stages)
 }
 
 var errScript = errors.New("scripted")
